@@ -83,6 +83,69 @@ class SymWalk:
                         return n
                 return n
 
+            def _comp(self, n):
+                """A comprehension over a statically known finite iterable is the display it builds
+                (`{str(i + 1): f & (1 << i) for i in range(8)}` is the eight-entry dict)."""
+                from .feval import feval, Unknown
+                n = self.generic_visit(n)
+                if len(n.generators) != 1 or n.generators[0].is_async:
+                    return n
+                g = n.generators[0]
+                try:
+                    items = list(feval(g.iter, {}, DEFAULT_CONSTS[0]))
+                except (Unknown, TypeError):
+                    return n
+                if len(items) > 64:
+                    return n
+
+                def inst(expr, binding):
+                    class B(ast.NodeTransformer):
+                        def visit_Name(self, x):
+                            if isinstance(x.ctx, ast.Load) and x.id in binding:
+                                return ast.Constant(value=binding[x.id])
+                            return x
+                    e2 = B().visit(copy.deepcopy(expr))
+                    try:
+                        v = feval(e2, {}, DEFAULT_CONSTS[0])
+                        if isinstance(v, (int, str, bytes, bool)) or v is None:
+                            return ast.Constant(value=v)
+                    except Unknown:
+                        pass
+                    return T().visit(e2)
+                keys, vals = [], []
+                for it in items:
+                    binding = {}
+                    try:
+                        from .feval import _bind
+                        _bind(g.target, it, binding)
+                    except Unknown:
+                        return n
+                    if not all(isinstance(v, (int, str, bytes, bool)) or v is None for v in binding.values()):
+                        return n
+                    keep = True
+                    for c in g.ifs:
+                        c2 = inst(c, binding)
+                        if isinstance(c2, ast.Constant):
+                            keep = keep and bool(c2.value)
+                        else:
+                            return n            # a filter that depends on run-time data: not a fixed display
+                    if not keep:
+                        continue
+                    if isinstance(n, ast.DictComp):
+                        keys.append(inst(n.key, binding))
+                        vals.append(inst(n.value, binding))
+                    else:
+                        vals.append(inst(n.elt, binding))
+                if isinstance(n, ast.DictComp):
+                    return ast.Dict(keys=keys, values=vals)
+                if isinstance(n, ast.SetComp):
+                    return ast.Set(elts=vals) if vals else n
+                return ast.List(elts=vals, ctx=ast.Load())
+
+            visit_ListComp = _comp
+            visit_DictComp = _comp
+            visit_SetComp = _comp
+
             def visit_JoinedStr(self, n):
                 n = self.generic_visit(n)
                 # fold f-strings whose holes became constants
@@ -289,7 +352,23 @@ def guards_mention_assignment(guards) -> bool:
     return False
 
 
+DEFAULT_CONSTS = [None]         # resolver of program constants (set by the rules module that uses mask_of)
+
+
 def mask_of(e: ast.AST, flag_names: set[str]):
+    """(flag name, m) when the truth of `e` is, for every byte value of the one flag variable it mentions, the truth
+    of `flag & m` - however the test is spelled (`f & 4`, `(f >> 2) & 1`, `f & Flags.F3`, `bool(f & 4)`,
+    `f & 4 != 0`).  Decided by evaluating the expression over all 256 values (tsa.feval); None otherwise."""
+    from .feval import byte_mask, free_names
+    fl = [n for n in free_names(e) if n in flag_names]
+    if len(fl) == 1:
+        m = byte_mask(e, fl[0], DEFAULT_CONSTS[0])
+        if m is not None:
+            return fl[0], m
+    return _mask_of_syntactic(e, flag_names)
+
+
+def _mask_of_syntactic(e: ast.AST, flag_names: set[str]):
     """If e is `<flag> & <const>` (either order) return (flag name, const)."""
     if isinstance(e, ast.BinOp) and isinstance(e.op, ast.BitAnd):
         for a, b in ((e.left, e.right), (e.right, e.left)):
